@@ -223,7 +223,7 @@ pub fn prop_with(case: &Case, known_flush: bool) -> Outcome {
     std::fs::write(sb.join("other").join("bystander"), b"bystander").unwrap();
     let before = snapshot_tree(sb);
     // `tuftool clone` always caches the root chain and treats an empty name list as "all"
-    let via_cli = case.via_cli && case.subset != Subset::Empty;
+    let via_cli = case.via_cli && requested.as_ref().map_or(true, |v| !v.is_empty());
     let root_chain = case.root_chain || via_cli;
     let res: Result<(), String> = if via_cli {
         o.label("via:tuftool-clone");
